@@ -4,3 +4,5 @@ X Peers.step Peers.init Peers.total Peers.check_trace Peers.empty_ost Peers.mkOs
 X ConnMgr.sinit ConnMgr.sstep ConnMgr.core ConnMgr.n_wait ConnMgr.dialing_addrs ConnMgr.cm_check ConnMgr.zlen
 R BHS.AddrSearch
 X AddrSearch.new_address
+R BHS.AddrBook
+X AddrBook.init AddrBook.step AddrBook.n_new AddrBook.n_tried AddrBook.in_tried AddrBook.in_new AddrBook.refs_of AddrBook.index
